@@ -122,6 +122,8 @@ def _run_group(harness, init, hist, cands, listeners):
         if reg.last_ret is not None:
             rec["ret"] = reg.last_ret
             rec["info"] = reg.last_info
+        if getattr(reg, "last_extra", None):
+            rec.update(reg.last_extra)
         msame = True
         if reg.mirror:
             m1 = harness.project_mirror(reg)
